@@ -1186,7 +1186,11 @@ def scenario_engine(pid, spec, tier, seed, workdir, res):
         v = line.split()[-1]
         code = line.split()[2].split('=', 1)[1]
         res['distribution']['scenario:' + v] = res['distribution'].get('scenario:' + v, 0) + 1
-        if v == 'BAD' and not known_open(pid, code, known):
+        kf = known_open(pid, code, known) if v == 'BAD' else None
+        if kf:
+            res['known'].setdefault(kf['id'], dict(finding=kf, count=0, example='scenario ' + line.split('name=', 1)[-1].split()[0]))
+            res['known'][kf['id']]['count'] += 1
+        if v == 'BAD' and not kf:
             res['violations'].append(dict(kind='monitor', code=code, case='scenario',
                                           payload=dict(experiment=line.strip(), how='harness/scenario_test.go TestScenarios (VERIF_OUT=<dir> go test -run TestScenarios ./harness): the named scenario, real transport, real backends')))
 
